@@ -123,6 +123,10 @@ func crossLaplacianConcurrent(nWorkers, evals int, f func(x, y []float64) float6
 
 	var originWG sync.WaitGroup
 	hasOrigin := usesOrigin(stencil)
+	if originKnown {
+		// The caller provided the value at the origin.
+		hasOrigin = false
+	}
 	if hasOrigin {
 		originWG.Add(1)
 		// Launch worker to compute the origin.
